@@ -826,8 +826,11 @@ def r_state(prog, tier):
                             for item in w.items:
                                 if item.optional_vars is not None and unparse(item.optional_vars) in targets:
                                     for c2 in ast.walk(item.context_expr):
-                                        if isinstance(c2, ast.Constant) and isinstance(c2.value, str) and c2.value.startswith('.'):
-                                            suffixes.add(c2.value)
+                                        if isinstance(c2, ast.Constant) and isinstance(c2.value, str):
+                                            import re as _re2
+                                            m2 = _re2.search(r'(\.[A-Za-z]+)$', c2.value)
+                                            if m2 and (c2.value.startswith('.') or c2.value[:m2.start()] in ('%s', '{}', '%s%s')):
+                                                suffixes.add(m2.group(1))
                     if suffixes and suffixes <= set(SET_FILE_OK[f.fq]):
                         ok = True
                         why_ok = 'SET table: %s files %s' % (f.fq, sorted(suffixes)) + ' - ' + SET_FILE_OK[f.fq][sorted(suffixes)[0]]
@@ -1005,18 +1008,19 @@ def _is_restore(f, d, k):
     head = cfg.nodes[node.loops[-1]]
     if head.kind != 'iter':
         return False
-    it = head.ast.iter
+    from ..events import strip_copy
+    it = strip_copy(head.ast.iter)
     if not (isinstance(it, ast.Call) and unparse(it.func) == 'zip' and len(it.args) == 2
             and isinstance(head.ast.target, ast.Tuple) and len(head.ast.target.elts) == 2):
         return False
     t, w = [unparse(x) for x in head.ast.target.elts]
     if unparse(d.ast) != "%s.data['%s'] = %s" % (t, k, w):
         return False
-    L, W = unparse(it.args[0]), unparse(it.args[1])
+    L, W = unparse(strip_copy(it.args[0])), unparse(strip_copy(it.args[1]))
     for (n, v) in name_defs(f, W):
         if isinstance(v, ast.ListComp) and cfg.dominates(n, head.id):
             g = v.generators[0]
-            if unparse(g.iter) == L and not g.ifs and unparse(v.elt) == "%s.data['%s']" % (unparse(g.target), k):
+            if unparse(strip_copy(g.iter)) == L and not g.ifs and unparse(v.elt) == "%s.data['%s']" % (unparse(g.target), k):
                 return True
     return False
 
@@ -1028,25 +1032,26 @@ def _restored(f, d, k):
     node = cfg.nodes[d.node]
     if not node.loops:
         return False
+    from ..events import strip_copy
     head = cfg.nodes[node.loops[-1]]
-    if head.kind != 'iter' or not isinstance(head.ast.iter, ast.Name):
+    if head.kind != 'iter' or not isinstance(strip_copy(head.ast.iter), ast.Name):
         return False
-    L = head.ast.iter.id
+    L = strip_copy(head.ast.iter).id
     snaps = []
     for n in cfg.eval_nodes():
         if n.kind == 'stmt' and isinstance(n.ast, ast.Assign) and isinstance(n.ast.value, ast.ListComp) \
                 and isinstance(n.ast.targets[0], ast.Name) and cfg.dominates(n.id, head.id):
             lc = n.ast.value
             g = lc.generators[0]
-            if unparse(g.iter) == L and not g.ifs and unparse(lc.elt) == "%s.data['%s']" % (unparse(g.target), k):
+            if unparse(strip_copy(g.iter)) == L and not g.ifs and unparse(lc.elt) == "%s.data['%s']" % (unparse(g.target), k):
                 snaps.append(n.ast.targets[0].id)
     if not snaps:
         return False
     for n in cfg.eval_nodes():
         if n.kind == 'iter' and cfg.dominates(head.id, n.id) and n.id != head.id and cfg.postdominates(n.id, head.id):
-            it = n.ast.iter
+            it = strip_copy(n.ast.iter)
             if isinstance(it, ast.Call) and unparse(it.func) == 'zip' and len(it.args) == 2 \
-                    and unparse(it.args[0]) == L and unparse(it.args[1]) in snaps and isinstance(n.ast.target, ast.Tuple):
+                    and unparse(strip_copy(it.args[0])) == L and unparse(strip_copy(it.args[1])) in snaps and isinstance(n.ast.target, ast.Tuple):
                 t, w = [unparse(x) for x in n.ast.target.elts]
                 for m in cfg.eval_nodes():
                     if m.kind == 'stmt' and n.id in m.loops and unparse(m.ast) == "%s.data['%s'] = %s" % (t, k, w) \
